@@ -867,6 +867,11 @@ def replay(ctx, rec):
         for f in fails:
             print("  ", f)
         return not fails
+    if kind == "readded":
+        fails = eval_readded(w["item"])
+        for f in fails:
+            print("  ", f)
+        return not fails
     if kind == "reencode":
         fails = eval_reencode(w["item"])
         for f in fails:
